@@ -33,6 +33,17 @@ Definition encode_ether (b : slice) (htype : N) (src dst : bytes) : res slice :=
    b3 <- copyto b2 6 12 src ;;
    put16 b3 12 htype)%res.
 
+(* EncodeEther when the MAC arguments are views into the destination's own backing array (srcMAC =
+   b[so:so+sl], dstMAC = b[do:do+dl] of the full-capacity array): the as-found behaviour, pinned.  copy has
+   memmove semantics (the source is read as it was before that copy), and the second copy reads srcMAC AFTER the
+   first one has written b[0:6]: a source MAC that overlaps b[0:6] is read back changed. *)
+Definition encode_ether_aliased (b : slice) (htype : N) (so sl_ do_ dl : nat) : res slice :=
+  if Nat.ltb (cap b) 14 then Panic else
+  (b1 <- reslice b 14 ;;
+   b2 <- copyto b1 0 6 (sub (arr b1) do_ dl) ;;
+   b3 <- copyto b2 6 12 (sub (arr b2) so sl_) ;;
+   put16 b3 12 htype)%res.
+
 (* getters *)
 Definition ether_type (p : slice) : res N := be16_at p 12.          (* Uint16(p[12:14]) *)
 Definition ether_dst (p : slice) : res bytes := (s <- sl p 0 6 ;; Ok (view s))%res.   (* p[:6] *)
